@@ -333,8 +333,13 @@ def known_findings(pid):
     try:
         data = json.load(open(os.path.join(VERIF, "known_findings.json")))
     except FileNotFoundError:
-        return []
-    return [f for f in data.get("findings", []) if f.get("property") == pid]
+        data = {}
+    out = [f for f in data.get("findings", []) if f.get("property") == pid]
+    # per-property additions (merged into known_findings.json by the lead)
+    extra = os.path.join(VERIF, "known_findings.d", pid.lower() + ".json")
+    if os.path.exists(extra):
+        out += [f for f in json.load(open(extra)).get("findings", []) if f.get("property") == pid]
+    return out
 
 
 class Report:
